@@ -1,7 +1,7 @@
 //! C10 — decoding arbitrary or corrupted data is total and stays inside the model.
 //!
 //! Isolated sweep: every word string of the stated lengths (plus truncations / extensions of valid
-//! streams) x 100 model programs (all ordered pairs of 10 decoder models, alternating over 6
+//! streams) x 144 model programs (all ordered pairs of 12 decoder models, alternating over 6
 //! symbols, incl. lookup-table, lazily quantised, quantised-Gaussian and uniform models, with
 //! the precision changing between symbols) x {ANS from_binary, ANS from_compressed, range decoder,
 //! chain coder} at two state widths. Oracle: no panic / abort / hang; ANS never errs; the range
@@ -38,6 +38,7 @@ struct Models8 {
     uni4: UniformModel<u8, 4>,
     uni8: UniformModel<u8, 8>,
     quant: LeakilyQuantizedDistribution<f64, i32, u8, Gaussian, 8>,
+    lookup_fast: ContiguousLookupDecoderModel<u8, Vec<u8>, Box<[u8]>, 8>,
 }
 impl Models8 {
     fn new() -> Self {
@@ -56,10 +57,12 @@ impl Models8 {
             uni4: UniformModel::new(10),
             uni8: UniformModel::new(256),
             quant: LeakyQuantizer::<f64, i32, u8, 8>::new(-100..=100).quantize(Gaussian::new(3.3, 25.0)),
+            // lookup model built DIRECTLY from floats at PRECISION == Probability::BITS
+            lookup_fast: ContiguousLookupDecoderModel::from_floating_point_probabilities_fast(&[0.1f64, 0.2, 0.3, 0.4], None).unwrap(),
         }
     }
 }
-pub const N_MODELS8: usize = 11;
+pub const N_MODELS8: usize = 12;
 
 macro_rules! decode_with8 {
     ($dec:expr, $m:expr, $k:expr, $map:expr) => {{
@@ -74,6 +77,7 @@ macro_rules! decode_with8 {
             7 => $dec.decode_symbol($m.uni4).map(|s| s < 10),
             8 => $dec.decode_symbol(&$m.ncdec).map(|s| [70u32, 3, 900].contains(&s)),
             9 => $dec.decode_symbol($m.uni8).map(|s| s < 256),
+            11 => $dec.decode_symbol(&$m.lookup_fast).map(|s| s < 4),
             _ => $dec.decode_symbol(&$m.quant_i8).map(|_s| true),
         };
         $map(r)
@@ -187,7 +191,7 @@ fn part_w8(part: &str, from: u64, to: u64, want: &str, sink: &mut ChildSink) {
         nd += run_coder!("RangeDecoder<u8,u64>", RangeDecoder::<u8, u64, _>::from_compressed(data.clone()).ok(), only_invalid, range_err);
         nsym.set(nsym.get() + nd);
         // chain coder: the precision is part of the type; run the P=8 models among the pair (and a P=2 pair)
-        let p8 = |k: usize| matches!(k, 1 | 2 | 3 | 5 | 6 | 8 | 9 | 10);
+        let p8 = |k: usize| matches!(k, 1 | 2 | 3 | 5 | 6 | 8 | 9 | 10 | 11);
         if p8(a) && p8(b) {
             macro_rules! chain8 { ($S:ty, $load:ident, $name:expr) => {{
                 match guarded(|| {
@@ -202,6 +206,7 @@ fn part_w8(part: &str, from: u64, to: u64, want: &str, sink: &mut ChildSink) {
                             6 => d.decode_symbol(&m.lazy).map(|s| s < 3),
                             8 => d.decode_symbol(&m.ncdec).map(|s| [70u32, 3, 900].contains(&s)),
                             10 => d.decode_symbol(&m.quant_i8).map(|_s| true),
+                            11 => d.decode_symbol(&m.lookup_fast).map(|s| s < 4),
                             _ => d.decode_symbol(m.uni8).map(|s| s < 256),
                         };
                         let r = match r { Ok(b) => R::Sym(b), Err(CoderError::Frontend(constriction::stream::chain::DecoderFrontendError::OutOfCompressedData)) => R::OutOfData, Err(CoderError::Backend(_)) => unreachable!() };
@@ -339,7 +344,7 @@ pub fn parts(tier: Tier) -> Vec<(String, u64, u64, String)> {
     let (_, nd) = data_space(maxlen);
     let extra = corrupted_streams().len() as u64;
     let mut v = vec![(format!("w8/{maxlen}"), (nd + extra) * (N_MODELS8 * N_MODELS8) as u64, if q { 40000 } else { 400000 },
-        format!("all u8 strings of length 0..={maxlen} ({nd}) + {extra} truncated/extended valid streams x 100 model programs x 7 stream decoders + chain coder"))];
+        format!("all u8 strings of length 0..={maxlen} ({nd}) + {extra} truncated/extended valid streams x 144 model programs x 7 stream decoders + chain coder"))];
     let ml16 = if q { 4 } else { 6 };
     let n16: u64 = (0..=ml16).map(|l| 6u64.pow(l as u32)).sum();
     v.push((format!("w16/{ml16}"), n16 * 49, 10000, format!("u16 strings over 6 boundary words of length 0..={ml16} ({n16}) x 49 model programs x 4 decoders")));
@@ -379,7 +384,7 @@ pub fn run_with(report: &Report, want: &'static str) {
 }
 
 pub fn run(report: &Report) {
-    report.bound("every u8 string of length <= 2 (thorough 3) and truncated/extended valid streams x 100 model programs on 7 stream decoders and the chain coder; u16 strings over boundary words x 49 programs on 4 decoders");
+    report.bound("every u8 string of length <= 2 (thorough 3) and truncated/extended valid streams x 144 model programs on 7 stream decoders and the chain coder; u16 strings over boundary words x 49 programs on 4 decoders");
     report.assume("each chunk of cases runs in a child process with a watchdog: aborts (out-of-bounds under std's unsafe-precondition checks), signals and hangs are outcomes of a case, not crashes of the check");
     report.require("symbols_decoded");
     report.sample(json!({"data": ["ff", "00"], "model_program": [3, 5, 3, 5, 3, 5], "models": ["Part<2>", "Part<8>", "categorical", "lookup-contiguous", "lookup-non-contiguous(P=5)", "quantised Gaussian", "lazy categorical", "uniform(10)@4", "non-contiguous(P=8, full precision)", "uniform(256)@8", "quantised Gaussian over all of i8"]}));
